@@ -905,6 +905,134 @@ def _map_signatures(model, rep):
                      fn.lineno)
 
 
+def _newton_start(model: Model, rep):
+    """The Newton iteration starts from a fixed reference point.  It has to
+    lie strictly inside the reference cell of *every* cell type the mapping
+    serves: started outside a simplex, on curved (second-order) cells the
+    iteration can converge to a second pre-image outside the cell - F(Y) = x
+    holds to round-off, so nothing is noticed - and facet quadrature then
+    evaluates the basis at that point.  The first assignment of the iterate
+    is evaluated per reference domain."""
+    from ..elements import load_refdoms
+    from ..refcell import inside_ref
+    from ..interp import Interp, Obj, PyFunc, Raised, Unsupported
+    R5 = "C10-R5"
+    fn = model.func(ISO, "MappingIsoparametric.invF")
+    first = None
+    for st in fn.node.body:
+        if isinstance(st, ast.Assign) and len(st.targets) == 1 and \
+                isinstance(st.targets[0], ast.Name):
+            first = st
+            break
+        if isinstance(st, (ast.For, ast.While)):
+            break
+    if first is None:
+        raise AnalysisError("invF: initial iterate not found")
+    it_name = first.targets[0].id
+
+    class Vec:
+        """one value per reference coordinate"""
+        skv_isarray = True
+
+        def __init__(self, vals):
+            self.vals = [Fraction(v) for v in vals]
+
+        def skv_getitem(self, ix):
+            return self              # [:, None, None] only adds axes
+
+        def skv_binop(self, op, other, reflected):
+            o = other.vals if isinstance(other, Vec) else None
+            if o is None and isinstance(other, (int, Fraction, float)):
+                o = [Fraction(other).limit_denominator(10 ** 6)] * len(
+                    self.vals)
+            if o is None:
+                raise Unsupported("start point arithmetic")
+            f = {ast.Add: lambda a, b: a + b, ast.Sub: lambda a, b: a - b,
+                 ast.Mult: lambda a, b: a * b}.get(type(op))
+            if isinstance(op, ast.Div):
+                f = (lambda a, b: b / a) if reflected else (
+                    lambda a, b: a / b)
+            elif isinstance(op, ast.Sub) and reflected:
+                f = lambda a, b: b - a
+            if f is None:
+                raise Unsupported("start point operator")
+            return Vec([f(a, b) for a, b in zip(self.vals, o)])
+    refdoms = load_refdoms(model)
+    nchk = 0
+    for rdn, rd in sorted(refdoms.items()):
+        if rd.dim < 1:
+            continue
+        nchk += 1
+
+        class PTab:
+            """refdom.p: (dim, nverts)"""
+            skv_isarray = True
+
+            def skv_getattr(self, name):
+                if name == "mean":
+                    def mean(a, k, n, rd=rd):
+                        ax = k.get("axis", a[0] if a else None)
+                        if ax not in (1, -1):
+                            raise Unsupported("mean over the wrong axis")
+                        return Vec([sum(p[i] for p in rd.p) / len(rd.p)
+                                    for i in range(rd.dim)])
+                    return PyFunc(mean)
+                if name == "shape":
+                    return (rd.dim, len(rd.p))
+                raise Unsupported("refdom.p." + name)
+
+        class XS:
+            skv_isarray = True
+
+            def skv_getattr(self, name):
+                if name == "shape":
+                    return (rd.dim, Poly.sym("ncells"), Poly.sym("npts"))
+                raise Unsupported("x." + name)
+
+        def hook(interp, name, args, kwargs, node, rd=rd):
+            if name in ("numpy.zeros", "numpy.zeros_like"):
+                return Vec([0] * rd.dim)
+            if name in ("numpy.ones", "numpy.ones_like"):
+                return Vec([1] * rd.dim)
+            if name == "numpy.full":
+                return Vec([args[1]] * rd.dim)
+            return NotImplemented
+        me = Obj(None, {"dim": rd.dim, "elem": Obj(None, {
+            "refdom": Obj(None, {"p": PTab()})})})
+        try:
+            v = Interp(model, call_hook=hook).eval(
+                first.value, {"self": me, "x": XS(), "tind": None},
+                fn.module)
+        except (Unsupported, Raised) as e:
+            raise AnalysisError(f"invF: initial iterate "
+                                f"'{src(first.value)}': {e}")
+        if not isinstance(v, Vec):
+            raise AnalysisError(f"invF: initial iterate evaluates to {v!r}")
+        pt = tuple(v.vals)
+        # strictly inside: inside, and still inside after a small move
+        # towards each vertex-opposite direction = not on any facet
+        cen = tuple(sum(p[i] for p in rd.p) / len(rd.p)
+                    for i in range(rd.dim))
+        out = tuple(c_ + (p_ - c_) * Fraction(1001, 1000)
+                    for p_, c_ in zip(pt, cen))
+        strictly = inside_ref(rd, pt) and (pt == cen or inside_ref(rd, out))
+        cons = f"invF:start-inside[{rdn}]"
+        if strictly:
+            rep.ok(R5, cons, f"{it_name} starts at {tuple(map(str, pt))}, "
+                             f"strictly inside {rdn}")
+        else:
+            where = "on the boundary of" if inside_ref(rd, pt) \
+                else "outside"
+            rep.fail(R5, fn.path, "MappingIsoparametric.invF", cons,
+                     f"the iteration starts at {tuple(map(str, pt))}, "
+                     f"{where} {rdn}: on curved cells it can converge to a "
+                     f"pre-image outside the reference cell (F(Y) = x to "
+                     f"round-off, so no exception), and facet quadrature "
+                     f"evaluates the basis there", first.lineno)
+    if nchk < 6:
+        raise AnalysisError(f"only {nchk} reference domains checked")
+
+
 def _newton(model: Model, rep):
     """The iterative inverse of the isoparametric map (R5).
 
@@ -942,7 +1070,9 @@ def _newton(model: Model, rep):
     ev = DimEval(api={"F": Fraction(1), "DF": Fraction(1),
                       "invDF": Fraction(-1), "Fmap": Fraction(1),
                       "J": Fraction(1)},
-                 attrs={"dim": ANY},
+                 attrs={"dim": ANY,
+                        # vertices of the reference cell: dimensionless
+                        "elem.refdom.p": Fraction(0)},
                  dotted=lambda e: model.dotted(mod, e))
     ev.run(node.body, env)
     for ex in ev.failed:
@@ -1104,6 +1234,7 @@ def run(model: Model, rep, tier: str) -> None:
              "under the test")
     refdoms = load_refdoms(model)
     staged(lambda: _newton(model, rep),
+           lambda: _newton_start(model, rep),
            lambda: _affine_algebra(model, rep, refdoms),
            lambda: _iso_algebra(model, rep),
            lambda: _refdom_normals(rep, refdoms),
@@ -1124,14 +1255,18 @@ def run(model: Model, rep, tier: str) -> None:
 _A, _I, _R = ("skfem/mapping/mapping_affine.py",
               "skfem/mapping/mapping_isoparametric.py", "skfem/refdom.py")
 MUTANTS = [
+    ("Newton inverse starts at the centre of the unit box",
+     ("skfem/mapping/mapping_isoparametric.py",
+      "        X = np.zeros(x.shape) + self.elem.refdom.p.mean(axis=1)"
+      "[:, None, None]", "        X = np.zeros(x.shape) + .5"), "C10-R5"),
     ("restricted affine mapping sorts and deduplicates its subset",
      (_A, "        self.tind = tind\n",
       "        self.tind = None if tind is None else np.unique(tind)\n"),
      "C10-R1"),
     ("isoparametric normals pushed forward with DF like tangents",
-     [(_I, "        invDF = self.invDF(X, tind)\n        N = np.empty(("
+     [(_I, "        invDF = self.invDF(X, tind)\n        N = np.zeros(("
        "self.dim, len(find)))", "        DF = self.DF(X, tind)\n        N = "
-       "np.empty((self.dim, len(find)))"),
+       "np.zeros((self.dim, len(find)))"),
       (_I, "        n = np.einsum('ijkl,ik->jkl', invDF, N)",
        "        n = np.einsum('ijkl,jk->ikl', DF, N)")], "C10-R2"),
     ("Newton inverse returns when any cell has converged",
@@ -1267,6 +1402,12 @@ MUTANTS = [
       "return (np.einsum('jik,jl', A, X).T + b.T).T"), "C10-R4"),
 ]
 TWINS = [
+    ("Newton inverse starts a little off the centroid",
+     ("skfem/mapping/mapping_isoparametric.py",
+      "        X = np.zeros(x.shape) + self.elem.refdom.p.mean(axis=1)"
+      "[:, None, None]",
+      "        X = np.zeros(x.shape) + .9 * self.elem.refdom.p.mean(axis=1)"
+      "[:, None, None]")),
     ("Newton stopping test on the max-norm of the step",
      (_I, "            if (np.linalg.norm(dX, 1, (0, 2)) < newton_tol).all():",
       "            if np.abs(dX).max() < newton_tol:"), None),
